@@ -26,7 +26,7 @@ import sys
 import weakref
 from typing import Any, Dict, List, Optional, Tuple
 
-sys.path.insert(0, "/repo")
+sys.path.insert(0, __import__("os").environ.get("VERIF_REPO", "/repo"))
 
 from ..core import Ctx, Failure
 from ..leanbridge import Driver
